@@ -309,6 +309,14 @@ func parseClauseLine(fs *FuncSpec, l string) error {
 				return err
 			}
 			ls.ContinueIf = append(ls.ContinueIf, &Clause{Label: fmt.Sprint(len(ls.ContinueIf) + 1), Text: txt, Node: n})
+		case strings.HasPrefix(body, "fails only if "):
+			// a condition on the state at the start of an iteration that holds whenever that iteration returns an error
+			txt := strings.TrimSpace(body[len("fails only if "):])
+			n, err := parseSpec(txt)
+			if err != nil {
+				return err
+			}
+			ls.FailsOnlyIf = append(ls.FailsOnlyIf, &Clause{Label: fmt.Sprint(len(ls.FailsOnlyIf) + 1), Text: txt, Node: n})
 		case strings.HasPrefix(body, "modifies "):
 			for _, a := range strings.Split(body[9:], ",") {
 				ls.Mods = append(ls.Mods, strings.TrimSpace(a))
